@@ -89,6 +89,11 @@ func registerStandardExt() {
 			panic(err)
 		}
 	}
+	if _, _, ok := psatoken.VerifRegistryEntry(ExtWideName); !ok {
+		if err := psatoken.RegisterProfile(ExtWideProfile{}); err != nil {
+			panic(err)
+		}
+	}
 	if _, _, ok := psatoken.VerifRegistryEntry(ExtStrictName); !ok {
 		if err := psatoken.RegisterProfile(ExtStrictProfile{}); err != nil {
 			panic(err)
@@ -244,4 +249,74 @@ func (ExtStrictProfile) GetClaims() psatoken.IClaims {
 		panic(err)
 	}
 	return &ExtStrictClaims{P2Claims: psatoken.P2Claims{Profile: &ep, SwComponents: &psatoken.SwComponents[*psatoken.SwComponent]{}, CanonicalProfile: ExtStrictName}}
+}
+
+// ExtWideClaims: profile 2 plus 16 optional vendor claims (map sizes around the 23/24 head boundary).
+type ExtWideClaims struct {
+	psatoken.P2Claims
+	E01 *int64 `cbor:"-75101,keyasint,omitempty" json:"e01,omitempty"`
+	E02 *int64 `cbor:"-75102,keyasint,omitempty" json:"e02,omitempty"`
+	E03 *int64 `cbor:"-75103,keyasint,omitempty" json:"e03,omitempty"`
+	E04 *int64 `cbor:"-75104,keyasint,omitempty" json:"e04,omitempty"`
+	E05 *int64 `cbor:"-75105,keyasint,omitempty" json:"e05,omitempty"`
+	E06 *int64 `cbor:"-75106,keyasint,omitempty" json:"e06,omitempty"`
+	E07 *int64 `cbor:"-75107,keyasint,omitempty" json:"e07,omitempty"`
+	E08 *int64 `cbor:"-75108,keyasint,omitempty" json:"e08,omitempty"`
+	E09 *int64 `cbor:"-75109,keyasint,omitempty" json:"e09,omitempty"`
+	E10 *int64 `cbor:"-75110,keyasint,omitempty" json:"e10,omitempty"`
+	E11 *int64 `cbor:"-75111,keyasint,omitempty" json:"e11,omitempty"`
+	E12 *int64 `cbor:"-75112,keyasint,omitempty" json:"e12,omitempty"`
+	E13 *int64 `cbor:"-75113,keyasint,omitempty" json:"e13,omitempty"`
+	E14 *int64 `cbor:"-75114,keyasint,omitempty" json:"e14,omitempty"`
+	E15 *int64 `cbor:"-75115,keyasint,omitempty" json:"e15,omitempty"`
+	E16 *int64 `cbor:"-75116,keyasint,omitempty" json:"e16,omitempty"`
+}
+
+const ExtWideName = "http://example.com/psa/wide"
+
+func (o *ExtWideClaims) Validate() error { return psatoken.ValidateClaims(o) }
+func (o ExtWideClaims) MarshalCBOR() ([]byte, error) {
+	return encoding.SerializeStructToCBOR(extEM, &o)
+}
+func (o *ExtWideClaims) UnmarshalCBOR(d []byte) error {
+	return encoding.PopulateStructFromCBOR(extDM, d, o)
+}
+func (o ExtWideClaims) MarshalJSON() ([]byte, error)  { return encoding.SerializeStructToJSON(&o) }
+func (o *ExtWideClaims) UnmarshalJSON(d []byte) error { return encoding.PopulateStructFromJSON(d, o) }
+
+// SetExtras sets the first n vendor claims.
+func (o *ExtWideClaims) SetExtras(n int) {
+	ps := []**int64{&o.E01, &o.E02, &o.E03, &o.E04, &o.E05, &o.E06, &o.E07, &o.E08, &o.E09, &o.E10, &o.E11, &o.E12, &o.E13, &o.E14, &o.E15, &o.E16}
+	for i, p := range ps {
+		if i < n {
+			v := int64(i) * 1000
+			*p = &v
+		} else {
+			*p = nil
+		}
+	}
+}
+
+// Extras counts the vendor claims that are set.
+func (o *ExtWideClaims) Extras() string {
+	out := ""
+	for _, p := range []*int64{o.E01, o.E02, o.E03, o.E04, o.E05, o.E06, o.E07, o.E08, o.E09, o.E10, o.E11, o.E12, o.E13, o.E14, o.E15, o.E16} {
+		if p == nil {
+			out += "-"
+		} else {
+			out += fmt.Sprint(*p, ",")
+		}
+	}
+	return out
+}
+
+type ExtWideProfile struct{}
+
+func (ExtWideProfile) GetName() string { return ExtWideName }
+func (ExtWideProfile) GetClaims() psatoken.IClaims {
+	ep := eat.Profile{}
+	if err := ep.Set(ExtWideName); err != nil {
+		panic(err)
+	}
+	return &ExtWideClaims{P2Claims: psatoken.P2Claims{Profile: &ep, SwComponents: &psatoken.SwComponents[*psatoken.SwComponent]{}, CanonicalProfile: ExtWideName}}
 }
